@@ -56,20 +56,16 @@ Proof. intros IHc Hw Hp. rewrite walk_node_eq, wn_not in Hw. rewrite py_node_eq 
   destruct b; reflexivity. Qed.
 
 Lemma case_comparison cs e v : (forall x, In x cs -> agrees x) ->
-  (reject_chains c = true \/ no_chain (LNode "comparison" cs) = true) ->
   W (LNode "comparison" cs) = Ok e -> P (LNode "comparison" cs) = Some v -> E e = Some v.
-Proof. intros IHc G Hw Hp. rewrite walk_node_eq, wn_comparison in Hw. rewrite py_node_eq in Hp.
+Proof. intros IHc Hw Hp. rewrite walk_node_eq, wn_comparison in Hw. rewrite py_node_eq in Hp.
   change ((if Nat.ltb (List.length cs) 3 || Nat.even (List.length cs) then None
            else match evens (map P cs) with
                 | Some x :: t => option_map PBool (py_chain_cmp x (map tok_text (odds cs)) t)
                 | _ => None end) = Some v) in Hp.
   destruct (Nat.ltb (List.length cs) 3 || Nat.even (List.length cs)) eqn:L; [discriminate Hp|].
   apply orb_false_elim in L as [L3 Lev].
-  assert (Hn : Nat.ltb 3 (List.length cs) = false).
-  { destruct G as [G|G].
-    - rewrite G in Hw. simpl in Hw. destruct (Nat.ltb 3 (List.length cs)); [discriminate Hw|reflexivity].
-    - simpl in G. apply andb_prop in G as [G _]. destruct (Nat.ltb 3 (List.length cs)); [discriminate G|reflexivity]. }
-  rewrite Hn, andb_false_r in Hw.
+  (* the walker rejects chains, so exactly one operator is left *)
+  destruct (Nat.ltb 3 (List.length cs)) eqn:Hn; [discriminate Hw|].
   apply Nat.ltb_ge in L3. apply Nat.ltb_ge in Hn.
   destruct cs as [|c0 [|o [|c1 [|x cs]]]]; simpl in L3, Hn; try lia. clear L3 Hn Lev.
   cbn [map evens odds nth] in Hw, Hp.
